@@ -130,6 +130,14 @@ FACTS = {
             (["paths", "/things", "get", "responses", "200", "headers"], ("keys", ["ETag"])),
         ],
     },
+    "arguments-that-name-the-callers-parameters": {
+        "files": {"main.oal": "let pair a b = { 'first a, 'second b };\nlet swap a b = pair b a;\nlet twice a = pair a a;\nres /swapped on get -> <swap int str> :: <status=404, twice bool>;\n"},
+        "facts": [
+            (["paths", "/swapped", "get", "responses", "default", "content", "application/json", "schema", "properties", "first", "type"], "string"),
+            (["paths", "/swapped", "get", "responses", "default", "content", "application/json", "schema", "properties", "second", "type"], "integer"),
+            (["paths", "/swapped", "get", "responses", "404", "content", "application/json", "schema", "properties", "second", "type"], "boolean"),
+        ],
+    },
     "annotations-in-place": {
         "files": {"main.oal":
                   "let n = int `minimum: 1, maximum: 9, example: 5`;\nlet s = str `pattern: \"[a-z]+\", minLength: 2, maxLength: 8, format: \"slug\", enum: [ab, cd]`;\n"
@@ -274,6 +282,51 @@ def struct_field_names(struct, crate_glob):
             if m:
                 return re.findall(r"(?m)^\s*pub\s+(?:r#)?(\w+)\s*:", m.group(1))
     return None
+
+
+def uri_append_lemmas(o, L, S, MC, E, structural, on_sat):
+    """Uri::append (shared with C01: it unwraps the last segment of the left operand - a path that can become empty is a
+    panic waiting for the next concat)."""
+    # concat: Uri::append joins two paths without doubling the separator - the trailing empty segment of the left
+    # operand is dropped exactly when there is one - and takes the parameters of the right operand
+    try:
+        fap = MC.sel("spec", "append", arg0=r"&mut .*Uri")
+        o.functions.append(mirlib.func_ref(fap, "oal-compiler"))
+        exa = mirlib.executor([MC])
+        n_pop = n_keep = 0
+        for p in exa.run(fap, arg_names=["self", "other"]):
+            if p.kind != "return":
+                continue
+            calls = list(p.calls())
+            last = [e for e in calls if e[1] in ("slice::last", "Vec::last")]
+            pops = [e for e in calls if e[1] == "Vec::pop"]
+            apps = [e for e in calls if e[1] == "Vec::append"]
+            mypath, otherpath = ("fld", ("deref", ("sym", "self")), 0), ("fld", ("sym", "other"), 0)
+            rhs = apps[0][2][1] if apps else None
+            while rhs is not None and rhs[0] == "addr":
+                rhs = rhs[1]
+            shape = len(apps) == 1 and len(pops) <= 1 and rhs == otherpath and any(t == mypath for t in ms.subterms(apps[0][2][0])) and \
+                all(any(t == mypath for t in ms.subterms(e[2][0])) for e in pops)
+            structural("Uri::append: the right operand's segments - all of them, untouched - are appended to the left operand's (after at most one pop of the left)", shape)
+            if not last:
+                structural("Uri::append: the decision to drop a segment looks at the last segment of the left operand", False)
+                continue
+            seg = ms.proj(ms.proj(last[0][3], ("v", "Some"), E), ("f", 0), E)
+            empty = ("app", "UriSegment::is_empty", (seg,))
+            if pops:
+                n_pop += 1
+                L.expect_unsat("Uri::append: a segment is dropped only if it is the empty trailing one", S.pc(p.pc) + [z3.Not(S.b(empty))], on_sat)
+            else:
+                n_keep += 1
+                L.expect_unsat("Uri::append: an empty trailing segment of the left operand is always dropped (no doubled separator)", S.pc(p.pc) + [S.b(empty)], on_sat)
+            st = {e[2]: e[3] for e in p.events if e[0] == "store" and e[1] == ("sym", "self")}
+            structural("Uri::append: the result has the right operand's parameters", st.get((("f", 1),)) == ("fld", ("sym", "other"), 1))
+        mirlib.check_translator(o, exa, "Uri::append")
+        if n_pop == 0 or n_keep == 0:
+            o.inconc("Uri::append: expected a dropping and a keeping path, got %d/%d" % (n_pop, n_keep))
+    except KeyError as exn:
+        o.inconc(str(exn)[:120])
+
 
 
 def check():
@@ -633,42 +686,15 @@ def check():
     except KeyError as exn:
         o.inconc(str(exn)[:120])
 
-    # concat: Uri::append joins two paths without doubling the separator - the trailing empty segment of the left
-    # operand is dropped exactly when there is one - and takes the parameters of the right operand
+    # what a function application denotes: the arguments are the caller's expressions, evaluated in the caller's context
+    # (lemma shared with C08) - the document then describes what the source names, not a same-named binding of the callee
     try:
-        fap = MC.sel("spec", "append", arg0=r"&mut .*Uri")
-        o.functions.append(mirlib.func_ref(fap, "oal-compiler"))
-        exa = mirlib.executor([MC])
-        n_pop = n_keep = 0
-        for p in exa.run(fap, arg_names=["self", "other"]):
-            if p.kind != "return":
-                continue
-            calls = list(p.calls())
-            last = [e for e in calls if e[1] in ("slice::last", "Vec::last")]
-            pops = [e for e in calls if e[1] == "Vec::pop"]
-            apps = [e for e in calls if e[1] == "Vec::append"]
-            mypath, otherpath = ("fld", ("deref", ("sym", "self")), 0), ("fld", ("sym", "other"), 0)
-            shape = len(apps) == 1 and len(pops) <= 1 and any(t == otherpath for t in ms.subterms(apps[0][2][1])) and any(t == mypath for t in ms.subterms(apps[0][2][0])) and \
-                all(any(t == mypath for t in ms.subterms(e[2][0])) for e in pops)
-            structural("Uri::append: the right operand's segments are appended to the left operand's (after at most one pop of the left)", shape)
-            if not last:
-                structural("Uri::append: the decision to drop a segment looks at the last segment of the left operand", False)
-                continue
-            seg = ms.proj(ms.proj(last[0][3], ("v", "Some"), E), ("f", 0), E)
-            empty = ("app", "UriSegment::is_empty", (seg,))
-            if pops:
-                n_pop += 1
-                L.expect_unsat("Uri::append: a segment is dropped only if it is the empty trailing one", S.pc(p.pc) + [z3.Not(S.b(empty))], on_sat)
-            else:
-                n_keep += 1
-                L.expect_unsat("Uri::append: an empty trailing segment of the left operand is always dropped (no doubled separator)", S.pc(p.pc) + [S.b(empty)], on_sat)
-            st = {e[2]: e[3] for e in p.events if e[0] == "store" and e[1] == ("sym", "self")}
-            structural("Uri::append: the result has the right operand's parameters", st.get((("f", 1),)) == ("fld", ("sym", "other"), 1))
-        mirlib.check_translator(o, exa, "Uri::append")
-        if n_pop == 0 or n_keep == 0:
-            o.inconc("Uri::append: expected a dropping and a keeping path, got %d/%d" % (n_pop, n_keep))
+        import props.c08 as c08
+        c08.application_lemmas(o, MC, E, MC.one(r"^(eval::)?eval_application$"), structural)
     except KeyError as exn:
         o.inconc(str(exn)[:120])
+
+    uri_append_lemmas(o, L, S, MC, E, structural, on_sat)
 
     o.samples = [{"query": q["name"], "verdict": q["verdict"]} for q in o.queries[:16]]
     rdir = new_replay_dir("C02", "facts")
